@@ -88,7 +88,7 @@ CLAIMED = {
     'C05': dict(
         text='Theorems in coq/props/C05.v over model/Coordinator.v + Multi.v for every seeding function: filter_subsequent keeps exactly the first maximum-confidence row per query, ascending ids, idempotent; main file of every mode and the first/second-pass '
              'files have strictly ascending (hence unique) query ids; align_query returns the first maximum-confidence candidate in seed order, execute keeps it iff it has pairs; in best mode the record set is exactly the queries with a first- or second-pass row, each once, ascending. '
-             'Tie: exhaustive/random synthetic rows for the filters; end-to-end runs with -p in {1,3,6}: first-pass record = first maximum captured candidate; whole runs replayed through the Coordinator model with the captured seeds, and (e2e_run_full_model) whole runs reproduced by Seeding.program_run_full from the input maps and the command line alone (executable seeding stage, no captured seeds). Data sets include a duplicated contig (exact ties between references) and palindromic molecules (equal seeds on both strands).',
+             'Tie: exhaustive/random synthetic rows for the filters; end-to-end runs with -p in {1,3,6}: first-pass record = first maximum captured candidate; whole runs replayed through the Coordinator model with the captured seeds, and (e2e_run_full_model) whole runs reproduced by Seeding.program_run_full from the input maps and the command line alone (executable seeding stage, no captured seeds). C05_program_ids_ascending / C05_program_file_names on the file-level model program_files (no hypotheses). Data sets include a duplicated contig (exact ties between references) and palindromic molecules (equal seeds on both strands).',
         note=NOTE + 'Seeding numerics are an arbitrary function (theorems hold for all of them).', design='6 (C05)', technique='Coq proof over an abstract seeding function + run-model correspondence + end-to-end oracle with candidate capture'),
     'C08': dict(
         text='Theorems in coq/props/C08.v for every seeding function, parameters, maxDifference: main(all) = main(joined), _1/_2(all) = main/_1(separate), AlignedRest flags, groups are a partition of size <= 2, every single-pass row is un-joined or part of exactly one joined row, '
@@ -97,7 +97,7 @@ CLAIMED = {
         note=NOTE + 'Open finding F7 (join uses only the first segments) is listed in known_findings.json with its witness and matched by a specific signature; F12 (best-mode self-join) was repaired.', design='6 (C08), 10.4', technique='Coq proof + refutation witness + run-model correspondence + four-mode text oracle with known-finding signature'),
     'C10': dict(
         text='Theorems in coq/props/C10.v for every seeding function (query-locality is its type; reference order is discharged at the reader level via C17_perm): execute = concatenation of per-query results; records of a query are the same in a run on all queries, on any subset, on [q] alone and under any permutation (all modes, up to the unprinted source counter); '
-             'runs on row/molecule-permuted CMAP files are identical; -qId/-rId = physically restricted files. Tie: real runs (full, shuffled rows, subset, complement, -qId, -rId, added queries, single-molecule runs, colliding id spaces; every data set has a duplicated contig, molecules are listed in non-ascending id order and make their first appearance in opposite orders in the two files) compared as text; run-model stream across variants.',
+             'runs on row/molecule-permuted CMAP files are identical; -qId/-rId = physically restricted files. Tie: real runs (full, shuffled rows, subset, complement, -qId, -rId, added queries, single-molecule runs, colliding id spaces; every data set has a duplicated contig, molecules are listed in non-ascending id order and make their first appearance in opposite orders in the two files) compared as text; run-model stream across variants. Program level (model/Program.v: program_files = CMAP rows + command line -> data lines of every output file): C10_program_row_order (invariant under any permutation of the rows of both files), C10_program_id_filters (-rId/-qId = physically restricted files), hypotheses only on the parsed rows and the command line; stream e2e_program_files: real runs on row-shuffled files with label-less molecules and id selections, every data line of every file reproduced byte for byte inside Coq (a run whose seeds FFT noise may decide is forgiven a difference only if the model with the captured seeds reproduces the files; one screened flag-free data set per tier is compared without tolerance).',
         note=NOTE + 'XmapEntryID is excluded from "the record" (it is a running number).', design='6 (C10)', technique='Coq proof (locality of every grouping step; erasure of the source counter) + end-to-end variant comparison'),
     'C11': dict(
         text='PARTIAL. coq/props/C11.v proves the deterministic half: positions_with_ids of the mirror image on the other strand = renumbered labels; pairing commutes with renumbering under the no-tie hypothesis (which holds on a lattice with 2d < step); scoring, factory, chain, conflict step, resolver, Aligner.align, Row.create (same reference span and confidence, start/end exchanged) and HitEnum commute with any injective renumbering; '
@@ -117,7 +117,7 @@ CLAIMED = {
         technique='Coq proof (source-erasure noninterference over all schedules) + pipeline correspondence with different counters + end-to-end multi-worker byte comparison'),
     'C07': dict(
         text='PARTIAL. coq/props/C07.v covers the modelled glue: every segment Aligner.align builds (SU <= 0 < MS) starts and ends on a pair, so all accessors, the pre-order and the chain are total; slice raises exactly when its kept window consists of poppable positions only, resolve_pair raises only through slice, the first resolution step between factory segments is total; '
-             'C07_run_full_total: the run model with the executable seeding stage never raises; C07_run_total: Coordinator.program_run (both passes, fragments, filters, join, all modes) never raises for any seeding function naming sorted references, trimmed queries with distinct ids, SU <= 0 < MS; C07_aligner_total: the model of Aligner.align never raises for SU <= 0 < MS, any maps, any seed-peak list, both strands; cigarString is total on valid matchings; the reader is total on every file the writer produces incl. zero records (re-export of C18); regression witnesses for the repaired defects (join IndexError before F8, pair-less joined row before F9) next to theorems that the current code handles them. NOT expressible in a Gallina model: exceptions raised inside numpy/scipy/pandas, memory, signals — exercised by a degenerate-input corpus through the real CLI in every mode, '
+             'C07_program_total_separate / C07_program_total_partial / C07_program_reader_rejects: the file-level model program_files returns Err exactly when a selected labelled molecule has no end marker (main files with joined rows under the F7/F10 hypothesis); C07_seeding_total, C07_program_seeding_exact: the seeding stage does not raise on any map the run seeds; C07_run_full_total: the run model with the executable seeding stage never raises; C07_run_total: Coordinator.program_run (both passes, fragments, filters, join, all modes) never raises for any seeding function naming sorted references, trimmed queries with distinct ids, SU <= 0 < MS; C07_aligner_total: the model of Aligner.align never raises for SU <= 0 < MS, any maps, any seed-peak list, both strands; cigarString is total on valid matchings; the reader is total on every file the writer produces incl. zero records (re-export of C18); regression witnesses for the repaired defects (join IndexError before F8, pair-less joined row before F9) next to theorems that the current code handles them. NOT expressible in a Gallina model: exceptions raised inside numpy/scipy/pandas, memory, signals — exercised by a degenerate-input corpus through the real CLI in every mode, '
              'parameter corners (incl. thresholds low enough for one-/two-label molecules to get records, -rId/-qId selecting nothing / subsets, molecules without labels so that the reference or query list is empty; random combinations of option values inside the allowed domain), read-back of every written file with the project reader, and a crash-search stream over first pass -> fragments -> second pass -> join -> writer -> reader.',
         note=NOTE + 'Findings F8, F9, F11 were repaired in /repo (fix: commits) and are listed in known_findings.json with their witnesses (now regression cases in corpus/C07).', design='6 (C07), 10.2', technique='Coq totality proofs for the modelled glue + refutation witnesses + degenerate end-to-end corpus and crash-search oracle'),
 }
